@@ -344,17 +344,38 @@ func (s *indexKVStore) getOrCreateValue(bucketID uint32, key []byte,
 		return 0, false, false, nil
 	}
 	verifhook.Yield("index.kvstore.beforeCreate")
-	id, err = s.createValue(bucketID, key, createFn)
+	id, isNew, err = s.createValue(bucketID, key, createFn)
 	if err != nil {
 		return 0, false, false, err
 	}
-	return id, true, true, nil
+	return id, true, isNew, nil
 }
 
-// createValue creates new value.
-func (s *indexKVStore) createValue(bucketID uint32, key []byte, createFn func() (uint32, error)) (uint32, error) {
+// createValue creates new value, unless the key got a value since the caller looked it up.
+func (s *indexKVStore) createValue(bucketID uint32, key []byte, createFn func() (uint32, error),
+) (id uint32, isNew bool, err error) {
 	s.lock.Lock()
 	defer s.lock.Unlock()
+
+	// look again under the write lock: another caller may have created the key since the lookup, and a
+	// flush may have moved it into the current snapshot (Flush swaps snapshot/immutable under this lock)
+	if id, ok := s.getValueFromMem(s.mutable, bucketID, key); ok {
+		return id, false, nil
+	}
+	if id, ok := s.getValueFromMem(s.immutable, bucketID, key); ok {
+		return id, false, nil
+	}
+	reader := v1.NewIndexKVReader(s.snapshot)
+	bucket, err := reader.GetBucket(bucketID)
+	if err != nil {
+		return 0, false, err
+	}
+	if bucket != nil {
+		defer bucket.Release()
+		if id, ok := bucket.GetValue(key); ok {
+			return id, false, nil
+		}
+	}
 
 	kvs, ok := s.mutable.Get(bucketID)
 	if !ok {
@@ -362,12 +383,12 @@ func (s *indexKVStore) createValue(bucketID uint32, key []byte, createFn func() 
 		s.mutable.Put(bucketID, kvs)
 	}
 	// generate and store value
-	id, err := createFn()
+	id, err = createFn()
 	if err != nil {
-		return 0, err
+		return 0, false, err
 	}
 	kvs[string(key)] = id
-	return id, nil
+	return id, true, nil
 }
 
 // GetValueFromMem returns value from mem store.
